@@ -1,6 +1,7 @@
 package props
 
 import (
+	"encoding/json"
 	"fmt"
 	"os"
 	"path/filepath"
@@ -133,3 +134,185 @@ func cliSameInts(a, b []int) bool {
 	}
 	return true
 }
+
+// runStdout executes the command with os.Stdout redirected to a file of the box
+// and returns what it printed.
+func (b *cliBox) runStdout(c *mc.Ctx, args ...string) (out string, err error, panicked bool, msg string, harnessErr bool) {
+	f, ferr := os.Create(b.path("stdout.txt"))
+	if ferr != nil {
+		c.Fatal("harness: %v", ferr)
+		return "", ferr, false, "", true
+	}
+	old := os.Stdout
+	os.Stdout = f
+	err, panicked, msg, harnessErr = b.run(c, args...)
+	os.Stdout = old
+	f.Close()
+	x, _ := os.ReadFile(b.path("stdout.txt"))
+	return string(x), err, panicked, msg, harnessErr
+}
+
+// ---------------------------------------------------------------- alignments of a stream are treated one by one
+//
+// Most commands accept a Phylip file holding several alignments and process
+// them in turn.  What a command writes for the stream [A, B, …] must be what it
+// writes for A alone followed by what it writes for B alone: anything else means
+// that state computed for one alignment (a converted coordinate, a parsed
+// position list, a window that slid) leaked into the next one.  The commands
+// and flags below are those the properties are anchored in; each row belongs to
+// the property whose statement covers the command.
+
+type cliStreamCase struct {
+	Stream bool       `json:"cli_stream"`
+	Prop   string     `json:"prop"`
+	Args   []string   `json:"args"`
+	Inputs [][]string `json:"inputs"` // alignments (rows a, b, c, …), in stream order
+}
+
+var cliStreamCommands = []struct {
+	prop string
+	args []string
+}{
+	{"C04", []string{"subseq", "-s", "1", "-l", "3"}},
+	{"C04", []string{"subseq", "-s", "1", "-l", "3", "--ref-seq", "b"}},
+	{"C04", []string{"subseq", "-s", "0", "-l", "2", "--step", "2"}},
+	{"C04", []string{"subseq", "-s", "1", "-l", "2", "--ref-seq", "b", "-r"}},
+	{"C04", []string{"subsites", "1", "3", "4"}},
+	{"C04", []string{"subsites", "--ref-seq", "b", "1", "3"}},
+	{"C04", []string{"subsites", "--ref-seq", "b", "-r", "0", "2"}},
+	{"C04", []string{"trim", "seq", "-n", "2"}},
+	{"C04", []string{"trim", "seq", "-n", "1", "-s"}},
+	{"C15", []string{"mask", "-s", "1", "-l", "3"}},
+	{"C15", []string{"mask", "--pos", "1,3", "--ref-seq", "b"}},
+	{"C15", []string{"mask", "--pos", "0,4"}},
+	{"C15", []string{"mask", "-s", "1", "-l", "3", "--ref-seq", "b", "--no-ref"}},
+	{"C15", []string{"mask", "-s", "0", "-l", "4", "--ref-seq", "b", "--no-gaps", "--replace", "GAP"}},
+	{"C15", []string{"mask", "--unique", "--replace", "MAJ"}},
+	{"C15", []string{"mask", "--unique", "--at-most", "2", "--ref-seq", "b"}},
+	{"C12", []string{"clean", "sites", "-q", "-c", "0.3"}},
+	{"C12", []string{"clean", "sites", "-q", "-c", "0.5", "--char", "MAJ", "--ends"}},
+	{"C12", []string{"clean", "seqs", "-q", "-c", "0.2"}},
+	{"C06", []string{"revcomp"}},
+	{"C06", []string{"revcomp", "b"}},
+	{"C06", []string{"tolower"}},
+	{"C05", []string{"translate", "--phase", "1"}},
+	{"C14", []string{"consensus"}},
+	{"C14", []string{"consensus", "--ignore-gaps"}},
+	{"C14", []string{"stats", "nseq"}},
+	{"C14", []string{"stats", "length"}},
+	{"C13", []string{"dedup"}},
+	{"C13", []string{"compress"}},
+}
+
+// cliStreamInputs: alignments whose reference row b has its gaps at different columns, of different lengths.
+var cliStreamInputs = [][]string{
+	{"AC-GTA", "A-CGTT", "ACGG-A"},
+	{"-ACGTAC", "AC--GTT", "TTGCA-A"},
+	{"TTTGCA", "TG-CA-", "TTTGCA"},
+}
+
+func cliPhylip(seqs []string) string {
+	var sb strings.Builder
+	fmt.Fprintf(&sb, "   %d   %d\n", len(seqs), len(seqs[0]))
+	for i, s := range seqs {
+		fmt.Fprintf(&sb, "%s  %s\n", c12Names[i], s)
+	}
+	return sb.String()
+}
+
+func cliStreamCheck(c *mc.Ctx, box *cliBox, cs cliStreamCase) {
+	c.Eval()
+	viol := func(clause, desc string) {
+		c.Violation(cs.Prop+"/cli-stream/"+cs.Args[0]+"/"+clause, fmt.Sprintf("%s: goalign %s -p on a stream of %d alignments %v", desc, strings.Join(cs.Args, " "), len(cs.Inputs), cs.Inputs), cs)
+	}
+	run := func(content string) (string, bool, bool) {
+		if !box.put(c, "in.phy", content) {
+			return "", false, false
+		}
+		args := append(append([]string{}, cs.Args...), "-p", "-i", "@in.phy")
+		out, err, pn, msg, herr := box.runStdout(c, args...)
+		if herr {
+			return "", false, false
+		}
+		if pn {
+			viol("panic/"+mc.PanicSite(msg), msg)
+			return "", false, false
+		}
+		return out, err == nil, true
+	}
+	var want strings.Builder
+	var all strings.Builder
+	for _, in := range cs.Inputs {
+		ph := cliPhylip(in)
+		all.WriteString(ph)
+		o, ok, alive := run(ph)
+		if !alive {
+			return
+		}
+		if !ok {
+			c.Outcome("cli-stream:" + cs.Args[0] + ":single-fails")
+			c.Count("cli_stream_single_fails:"+strings.Join(cs.Args, "_"), 1)
+			return
+		}
+		want.WriteString(o)
+	}
+	got, ok, alive := run(all.String())
+	if !alive {
+		return
+	}
+	c.Mark(cs)
+	c.Nontrivial(jsonStr(cs))
+	if !ok {
+		viol("stream-fails", "every alignment alone is accepted, the stream is not")
+		return
+	}
+	if got != want.String() {
+		viol("differs-from-one-by-one", fmt.Sprintf("the stream gives %q; the alignments one by one give %q", got, want.String()))
+		return
+	}
+	c.Outcome("cli-stream:" + cs.Args[0] + ":same")
+	c.Count("cli_stream_same", 1)
+}
+
+// cliStreamTasks: the rows of the table that belong to prop, on every ordered pair and one triple of inputs.
+func cliStreamTasks(prop string) []mc.Task {
+	var ts []mc.Task
+	for _, row := range cliStreamCommands {
+		if row.prop != prop {
+			continue
+		}
+		row := row
+		ts = append(ts, mc.Task{Name: "cli-stream#" + strings.Join(row.args, "_"), Run: func(c *mc.Ctx) {
+			box := newCLIBox(c, "cli-stream-")
+			if box == nil {
+				return
+			}
+			defer box.close()
+			n := len(cliStreamInputs)
+			for i := 0; i < n; i++ {
+				for j := 0; j < n; j++ {
+					cliStreamCheck(c, box, cliStreamCase{Stream: true, Prop: prop, Args: row.args, Inputs: [][]string{cliStreamInputs[i], cliStreamInputs[j]}})
+				}
+			}
+			cliStreamCheck(c, box, cliStreamCase{Stream: true, Prop: prop, Args: row.args, Inputs: cliStreamInputs})
+		}})
+	}
+	return ts
+}
+
+// cliStreamReplay replays a stream case; false when the payload is something else.
+func cliStreamReplay(c *mc.Ctx, payload []byte) bool {
+	var cs cliStreamCase
+	if err := json.Unmarshal(payload, &cs); err != nil || !cs.Stream || len(cs.Args) == 0 || len(cs.Inputs) == 0 {
+		return false
+	}
+	box := newCLIBox(c, "cli-stream-")
+	if box == nil {
+		return true
+	}
+	defer box.close()
+	cliStreamCheck(c, box, cs)
+	return true
+}
+
+const cliStreamRule = " Command-line streams: for the commands of this property that read a Phylip file of several alignments (table cliStreamCommands in cli_layer.go), what the command prints for a stream of two or three alignments (every ordered pair and one triple of 3 alignments of different lengths whose reference row has its gaps at different columns) must be what it prints for each alignment alone, in order."
